@@ -269,6 +269,11 @@ class Partitioned(struct.PyTreeNode, AxisMetadata[A]):
   def add_axis(self, index: int, params: dict[Any, Any]) -> 'Partitioned[A]':
     axis_name = self._get_partition_name(params)
     names = list(self.names)
+    if index < 0:
+      # A negative index refers to a position in the *new* names (the array
+      # has already gained the axis), whereas ``list.insert`` counts from the
+      # end of the old list: ``insert(-1, x)`` puts ``x`` before the last item.
+      index += len(names) + 1
     while len(names) < index:
       names.append(None)  # type: ignore
     names.insert(index, axis_name)  # type: ignore
